@@ -4,6 +4,7 @@
    wmean_def ps = sum(w x)/sum(w), repeat_by_weights (Spec/Sample.v).  The model describes the
    repaired code (D4: the weighted Mean/GeoMean skip zero weights). *)
 From MM Require Import Base.Num Base.GASort Model.Stream Proofs.Stream Model.Sample Spec.Sample Proofs.Sample.
+From MM Require Import Check.C09 Proofs.CheckC09.
 From Coq Require Import Permutation Sorted.
 Local Open Scope Q_scope.
 
@@ -202,3 +203,90 @@ Example C09_example_sort_history :
      mkSample [1; 1; 2; 3] (Some [6; 8; 7; 5]) true] /\
   linspace 0 1 5 = [0; 1 # 4; 1 # 2; 3 # 4; 1] /\ vconcat [[1; 2]; []; [3]] = [1; 2; 3].
 Proof. vm_compute. repeat split; reflexivity. Qed.
+
+(* ===== what an accepted verdict of the correspondence comparator certifies (Proofs/CheckC09.v) =====
+   check_C09 = p_line (decoding) followed by check_case (comparison).  Verdict 1 (borderline) is never produced:
+   an accepted verdict has code 0.  It implies [case_ok cs] for the decoded case cs:
+     kind 0  stats_ok: stats.Mean / Sample.Mean within tol_mean (weighted: tol_wmean) of mean_def xs = sum/n
+             (weighted: wmean_def = sum(w x)/sum(w), for non-negative weights of positive total); Variance within
+             tol_var of var_def xs = sum (x - mean)^2/(n-1) (one value: 0); StdDev s through its square:
+             0 <= s and |s^2 - var| <= tol_std = tol_var + 8 ulp var; Sum within tol_sum of Qsum xs (weighted: of
+             wsum_xw = sum(w x)); Weight = n exactly (weighted: within tol_sum ws of Qsum ws); Bounds = exactly
+             (least, greatest) element (is_min, is_max) of xs — weighted: of the values carrying a non-zero weight
+             ([used]) — provided the Sorted flag is only set on ascending data; NaN for the empty sample; weighted
+             Variance / StdDev panic; nothing was modified.  GeoMean: only NaN-ness and positivity (geo_ok).
+     kind 1  hist_ok: every dump equals the model store, every query satisfies query_obs_ok (same predicates as
+             above) for the queried sample — stated relative to the model store h_step (see meta: partial).
+     kind 2  vec_ok: Linspace element-wise within tol_lin of lo + i (hi - lo)/(num - 1); Sum within tol_sum of Qsum;
+             Map / Vectorize / Concat element-wise equal to map f xs / concat xss, inputs unmodified.
+   The Welford loops / folds of Model/Sample.v do not occur in stats_ok, query_obs_ok, lin_ok. *)
+Theorem C09_check_ok_sound : forall line cs c tag pos diag,
+  check_C09 line = verdict c tag pos diag -> (c = 0 \/ c = 1)%Z -> p_line line = Some (cs, []) -> c = 0%Z /\ case_ok cs.
+Proof. exact check_ok_sound. Qed.
+Print Assumptions C09_check_ok_sound.
+
+(* per kind / per observable *)
+Theorem C09_compare_stats_sound : forall sorted hasw xs ws o c tag pos diag,
+  (hasw = true -> length ws = length xs) ->
+  check_stats sorted hasw xs ws o = verdict c tag pos diag -> (c = 0 \/ c = 1)%Z -> stats_ok sorted hasw xs ws o.
+Proof. exact check_stats_sound. Qed.
+Print Assumptions C09_compare_stats_sound.
+
+Theorem C09_compare_query_sound : forall s mst m sm w b1 b2 vst v,
+  query_ok s mst m sm w b1 b2 vst v = None -> query_obs_ok s mst m sm w b1 b2 vst v.
+Proof. exact query_ok_sound. Qed.
+Print Assumptions C09_compare_query_sound.
+
+Theorem C09_compare_history_sound : forall ops st idx tag tag' pos diag,
+  run_hist st ops idx tag = (0%Z, tag', pos, diag) -> hist_ok st ops.
+Proof. exact run_hist_sound. Qed.
+Print Assumptions C09_compare_history_sound.
+
+Theorem C09_compare_vec_sound : forall v d, check_vec v = (true, d) -> vec_ok v.
+Proof. exact check_vec_sound. Qed.
+Print Assumptions C09_compare_vec_sound.
+
+(* the single comparisons: mean, variance, standard deviation (through the square), bounds *)
+Theorem C09_compare_mean_sound : forall xs tol st o, f_close tol (mean xs) st o = true ->
+  st = 0%Z /\ match xs with [] => o = XNaN | _ => exists q, o = XFin q /\ Qabs (q - mean_def xs) <= tol end.
+Proof. exact mean_sound. Qed.
+Print Assumptions C09_compare_mean_sound.
+
+Theorem C09_compare_variance_sound : forall xs st o,
+  f_close (tol_var xs (var_val (variance xs))) (variance xs) st o = true ->
+  st = 0%Z /\ match xs with [] => o = XNaN
+              | _ => exists q, o = XFin q /\ Qabs (q - var_spec xs) <= tol_var xs (var_spec xs) end.
+Proof. exact variance_sound. Qed.
+Print Assumptions C09_compare_variance_sound.
+
+Theorem C09_compare_stddev_sound : forall xs st o,
+  f_close_sqrt (tol_var xs (var_val (variance xs)) + 8 * ulp53 * var_val (variance xs)) (variance xs) st o = true ->
+  st = 0%Z /\ match xs with [] => o = XNaN
+              | _ => exists s, o = XFin s /\ 0 <= s /\ Qabs (s * s - var_spec xs) <= tol_std xs (var_spec xs) end.
+Proof. exact stddev_sound. Qed.
+Print Assumptions C09_compare_stddev_sound.
+
+Theorem C09_compare_bounds_sound : forall l omin omax, b_eq (bounds l) omin omax = true ->
+  match l with
+  | [] => omin = XNaN /\ omax = XNaN
+  | _ => exists a b, omin = XFin a /\ omax = XFin b /\ is_min a l /\ is_max b l
+  end.
+Proof. exact bounds_sound. Qed.
+Print Assumptions C09_compare_bounds_sound.
+
+(* Non-vacuity: real lines of the harness (hexadecimal fields written in decimal), accepted, and they decode. *)
+Definition C09_line_unw : list Z := [9; 0; 0; 0; 8; 4611686018427387904; 4616189618054758400; 4616189618054758400; 4616189618054758400; 4617315517961601024; 4617315517961601024; 4619567317775286272; 4621256167635550208; 0; 4617315517961601024; 4616832989430097042; 4611996969317966890; 4616868778438153437; 4611686018427387904; 4621256167635550208; 0; 4617315517961601024; 0; 4616832989430097042; 0; 4611996969317966890; 0; 4616868778438153437; 4630826316843712512; 4620693217682128896; 4611686018427387904; 4621256167635550208; 1]%Z.
+Definition C09_line_w : list Z := [9; 0; 1; 1; 3; 4607182418800017408; 4611686018427387904; 4613937818241073152; 3; 0; 4607182418800017408; 4611686018427387904; 4611686018427387904; 4607182418800017408; 4607182418800017408; 4610862402797412991; 4607182418800017408; 4613937818241073152; 0; 4613187218303178069; 2; 0; 2; 0; 0; 4613083803783214218; 4620693217682128896; 4613937818241073152; 4611686018427387904; 4613937818241073152; 1]%Z.
+Definition C09_line_hist : list Z := [9; 1; 0; 1; 4; 4613937818241073152; 4607182418800017408; 4611686018427387904; 4607182418800017408; 4; 4617315517961601024; 4618441417868443648; 4619567317775286272; 4620693217682128896; 5; 1; 0; 2; 0; 1; 4; 4613937818241073152; 4607182418800017408; 4611686018427387904; 4607182418800017408; 4; 4617315517961601024; 4618441417868443648; 4619567317775286272; 4620693217682128896; 0; 1; 4; 4613937818241073152; 4607182418800017408; 4611686018427387904; 4607182418800017408; 4; 4617315517961601024; 4618441417868443648; 4619567317775286272; 4620693217682128896; 0; 1; 2; 0; 1; 4; 4613937818241073152; 4607182418800017408; 4611686018427387904; 4607182418800017408; 4; 4617315517961601024; 4618441417868443648; 4619567317775286272; 4620693217682128896; 1; 1; 4; 4607182418800017408; 4607182418800017408; 4611686018427387904; 4613937818241073152; 4; 4618441417868443648; 4620693217682128896; 4619567317775286272; 4617315517961601024; 3; 0; 0; 4610127080094836578; 4631248529308778496; 4628011567076605952; 4607182418800017408; 4613937818241073152; 2; 0; 2; 1; 0; 4621819117588971520; 2; 0; 1; 4; 4613937818241073152; 4607182418800017408; 4611686018427387904; 4607182418800017408; 4; 4617315517961601024; 4618441417868443648; 4619567317775286272; 4620693217682128896; 0; 1; 4; 4621819117588971520; 4607182418800017408; 4611686018427387904; 4613937818241073152; 4; 4618441417868443648; 4620693217682128896; 4619567317775286272; 4617315517961601024; 3; 1; 0; 4615583364258766218; 4636526185122103296; 4628011567076605952; 4607182418800017408; 4621819117588971520; 2; 0]%Z.
+Definition C09_line_lin : list Z := [9; 2; 0; 0; 4607182418800017408; 5; 5; 0; 4598175219545276416; 4602678819172646912; 4604930618986332160; 4607182418800017408]%Z.
+Definition C09_line_sum : list Z := [9; 2; 2; 3; 4607182418800017408; 4611686018427387904; 4615063718147915776; 4619004367821864960]%Z.
+Example C09_check_examples :
+  check_C09 C09_line_unw = verdict 0 545 (-1) [] /\      (* xs = 2 4 4 4 5 5 7 9, unweighted *)
+  check_C09 C09_line_w = verdict 0 574 (-1) [] /\        (* xs = 1 2 3, weights 0 1 2 (first weight zero), Sorted *)
+  check_C09 C09_line_hist = verdict 0 3200 (-1) [] /\    (* Copy 0; Sort 1; Query 0; Poke 1 0 10; Query 1 *)
+  check_C09 C09_line_lin = verdict 0 256 (-1) [] /\      (* Linspace 0 1 5 *)
+  check_C09 C09_line_sum = verdict 0 256 (-1) [].         (* vec.Sum 1 2 3.5 *)
+Proof. vm_compute. repeat split; reflexivity. Qed.
+Example C09_lines_decode :
+  Forall (fun l => exists cs, p_line l = Some (cs, [])) [C09_line_unw; C09_line_w; C09_line_hist; C09_line_lin; C09_line_sum].
+Proof. repeat constructor; vm_compute; eexists; reflexivity. Qed.
